@@ -11,6 +11,7 @@
 #include <tins/tcp_ip/ack_tracker.h>
 #include <tins/tcp_ip/stream_follower.h>
 #include <tins/ip_reassembler.h>
+#include <tins/tcp_stream.h>
 #include <tins/crypto.h>
 #include <tins/utils/checksum_utils.h>
 #include <fstream>
@@ -124,6 +125,14 @@ static u64 op_follower(Rng& r) {
     Bytes a = r.bytes(50 + r.below(200)), b = r.bytes(50 + r.below(200)); u32 half = (u32)a.size() / 2;
     pkt(true, ci + 1 + half, si + 1, TCP::ACK, Bytes(a.begin() + half, a.end())); pkt(true, ci + 1, si + 1, TCP::ACK, Bytes(a.begin(), a.begin() + half)); pkt(false, si + 1, ci + 1 + (u32)a.size(), TCP::ACK, b);
     pkt(true, ci + 1 + (u32)a.size(), si + 1 + (u32)b.size(), TCP::FIN | TCP::ACK, {}); pkt(false, si + 1 + (u32)b.size(), ci + 2 + (u32)a.size(), TCP::FIN | TCP::ACK, {});
+    // the legacy follower on its own small capture: stream identifiers are a per-follower sequence (0, 1, ...)
+    { TCPStreamFollower lf; std::vector<EthernetII> cap; u64 ids = 0;
+      for (u32 c = 0, n = 2 + r.below(3); c < n; ++c) { u16 p2 = (u16)(2000 + c); u32 i1 = (u32)r.next(), i2 = (u32)r.next();
+          { TCP t(80, p2); t.flags(TCP::SYN); t.seq(i1); cap.push_back(EthernetII() / IP("10.1.0.2", "10.1.0.1") / t); }
+          { TCP t(p2, 80); t.flags(TCP::SYN | TCP::ACK); t.seq(i2); t.ack_seq(i1 + 1); cap.push_back(EthernetII() / IP("10.1.0.1", "10.1.0.2") / t); }
+          { TCP t(80, p2); t.flags(TCP::ACK); t.seq(i1 + 1); t.ack_seq(i2 + 1); Bytes d = r.bytes(10 + r.below(40)); cap.push_back(EthernetII() / IP("10.1.0.2", "10.1.0.1") / t / RawPDU(d.data(), (u32)d.size())); } }
+      struct Cb { u64* ids; bool operator()(TCPStream& st) const { *ids = mix(*ids, st.id()); *ids = fnv(st.client_payload().data(), st.client_payload().size(), *ids); return true; } };
+      lf.follow_streams(cap.begin(), cap.end(), Cb{&ids}); h = mix(h, ids); mark("follower:legacy-stream-ids"); }
     return mix(mix(h, got), cb);
 }
 static u64 op_crypto(Rng& r) {
